@@ -1,12 +1,13 @@
 """C02 -- scheduler core (work in progress: metadata filled in below)."""
-from props.common import contract_tasks, lemma_tasks, TRUSTED_CORE
+from props.common import other_tasks, contract_tasks, lemma_tasks, TRUSTED_CORE
 
 PROPERTY = "C02"
 
 
 def tasks(tier):
-    return (contract_tasks("contracts.scheduler", "C02", tier=tier) + contract_tasks("contracts.sim_process", "C02", tier=tier)
+    return ((contract_tasks("contracts.scheduler", "C02", tier=tier) + contract_tasks("contracts.sim_process", "C02", tier=tier)
             + contract_tasks("contracts.progress", "C02", tier=tier) + lemma_tasks("contracts.progress", "C02"))
+            + other_tasks("contracts.closure", "C02", "bounded"))
 
 
 TRUSTED_BASE = TRUSTED_CORE
